@@ -2089,7 +2089,11 @@ def _nt_maj(case):
 @st.composite
 def _spark_case(draw):
     return {"r": draw(_sizes(1, 5)), "c": draw(_sizes(1, 6)), "plant": draw(st.integers(0, 4)), "cplx": draw(st.booleans()), "src": draw(st.sampled_from(["int", "int", "gauss"])),
-            "zero_col": draw(st.sampled_from([False, False, False, True])), "seed": draw(gen.SEED)}
+            "zero_col": draw(st.sampled_from([False, False, False, True])), "seed": draw(gen.SEED),
+            # the spark is invariant under rescaling the matrix or single columns; powers of two keep the planted integer
+            # dependencies exact (seeded change C16-c2 - dependence decided by np.isclose(det(Gram), 0), an absolute
+            # tolerance on a quantity of degree 2k in the scale - was missed while every entry was O(1))
+            "scale2": draw(st.sampled_from([0, 0, 0, -20, -10, 10, 20])), "colscale": draw(st.booleans())}
 
 
 def check_spark(case):
@@ -2122,12 +2126,27 @@ def check_spark(case):
                 sv = np.linalg.svd(m[:, list(s)].astype(complex), compute_uv=False)
                 if sv[-1] < 1e-8 * max(1.0, sv[0]):
                     raise Inconclusive("an independent column subset is ill-conditioned")
+    scaled = ""
+    if case.get("scale2") or case.get("colscale"):
+        f = np.full(c, 2.0 ** int(case.get("scale2") or 0))
+        if case.get("colscale"):
+            f = f * 2.0 ** g.integers(-6, 7, size=c)
+        m = m * f[None, :]
+        scaled = f" scaled column-wise by {np.array2string(f, precision=3)}"
+        # the conditioning guards above were evaluated before scaling: re-check relative to the largest singular value
+        for kk in range(1, min(expected, min(r, c) + 1)):
+            for s_ in itertools.combinations(range(c), kk):
+                sv = np.linalg.svd(m[:, list(s_)].astype(complex), compute_uv=False)
+                if sv[-1] < 1e-8 * sv[0]:
+                    raise Inconclusive("an independent column subset is ill-conditioned after scaling")
     out = spark(m)
-    req(int(out) == expected, f"spark returned {out} for a {r}x{c} {'complex' if cplx else 'real'} matrix whose smallest dependent column set has {expected} columns "
+    req(int(out) == expected, f"spark returned {out} for a {r}x{c}{scaled} {'complex' if cplx else 'real'} matrix whose smallest dependent column set has {expected} columns "
         f"({'none: columns+1 / rows+1 convention' if expected == min(r, c) + 1 else 'planted'})", "spark:value")
 
 
 def _nt_spark(case):
+    if (case.get("scale2") or case.get("colscale")) and case["c"] >= 2 and case["r"] >= 2:
+        return "scaled" + (",planted" if case["src"] == "int" and case["plant"] >= 1 else "")
     if case["src"] == "int" and case["plant"] >= 2 and case["c"] >= 3 and case["r"] >= 2:
         return "planted-dependency" + (",complex" if case["cplx"] else "")
     if case["src"] == "gauss" and case["c"] > case["r"] >= 2:
